@@ -34,7 +34,9 @@ HOSTILE = ["'", "''", "x' OR 1=1 --", "--", "/*", "*/", ";", "\\", "\\'", "\x00"
            "2020-01-01' OR 1=1 --", "2020-01-01", "12:00:00' --", "2020-01-01T10:00:00Z' OR '1'='1", "01234567-89ab-cdef-0123-456789abcdef' --",
            "P1D' OR 1=1 --", "1' OR '1'='1", "1.5e3'--", "true' OR 1=1 --", "null' --", "-1) OR (1=1",
            # contents that look like the placeholders of a template / parameter style (a second substitution pass must not find them)
-           "$1", "$2", "$3 $2 $1", "{0}", "{1}{0}", "{}", "%s", "%(a)s", "\\1", "\\g<1>", ":param_1", "?", "@p1", "${x}", "#{x}"]
+           "$1", "$2", "$3 $2 $1", "{0}", "{1}{0}", "{}", "%s", "%(a)s", "\\1", "\\g<1>", ":param_1", "?", "@p1", "${x}", "#{x}",
+           # contents that spell the keywords / operators the dialects themselves emit, with the blanks around them (a rewrite of already-rendered text finds them)
+           " LIKE ", " NOT LIKE ", " AND ", " OR ", " NOT ", " IN (", " IS NULL", " IS NOT NULL", " ESCAPE '\\'", " = ", " || ", "LIKE", " like ", ") OR (", " BETWEEN ", "CAST(", " AS "]
 
 I = gens_typed.I
 call = gens_typed.call
@@ -81,6 +83,12 @@ def string_positions(s):
         ast.Compare(ast.Eq(), I("i1"), L), ast.Compare(ast.Lt(), I("f1"), L), ast.Compare(ast.Eq(), I("b1"), L), ast.Compare(ast.Eq(), I("g1"), L),
         ast.Compare(ast.Eq(), ast.BinOp(ast.Add(), L, ast.Integer("1")), I("i1")), ast.Compare(ast.Gt(), call("now"), L),
         ast.Compare(ast.Eq(), ast.Date("2020-01-01"), L), ast.Compare(ast.Eq(), ast.Duration("P1D"), L), ast.Compare(ast.NotEq(), ast.Null(), L),
+        # under `not`, with the content in the FIRST argument of the pattern functions (directly and nested in concat / tolower), and in negated comparisons / memberships
+        ast.UnaryOp(ast.Not(), call("startswith", call("concat", I("s1"), L), S("a"))), ast.UnaryOp(ast.Not(), call("contains", call("concat", L, I("s1")), S("adm"))),
+        ast.UnaryOp(ast.Not(), call("endswith", L, I("s2"))), ast.UnaryOp(ast.Not(), call("contains", call("tolower", L), S("a"))), ast.UnaryOp(ast.Not(), call("contains", L, L)),
+        ast.UnaryOp(ast.Not(), ast.Compare(ast.Eq(), I("s1"), L)), ast.UnaryOp(ast.Not(), ast.Compare(ast.In(), I("s1"), ast.List([L, S("b")]))),
+        ast.UnaryOp(ast.Not(), ast.Compare(ast.Eq(), call("concat", L, I("s1")), L)), ast.UnaryOp(ast.Not(), ast.UnaryOp(ast.Not(), call("startswith", call("concat", L, L), S("a")))),
+        ast.UnaryOp(ast.Not(), ast.BoolOp(ast.And(), call("contains", call("concat", I("s1"), L), S("a")), ast.Compare(ast.Eq(), I("s2"), L))),
     ]
     return out
 
